@@ -221,9 +221,9 @@ PROPS.update({
         "technique": "Verus contracts on the extracted mean / weighted_sum / weighted_mean bodies (closure step relation + fold-trace lemma); bounded enumeration against exact integer arithmetic for the rest",
         "design_ref": "DESIGN.md 4 (C06), 8a",
         "verus": [("means", "N")],
-        "enum": [{"name": "means"}],
+        "enum": [{"name": "means"}, {"name": "floatsums"}],
         "assumptions": [A_VERUS, A_EXTRACT, A_ENUM, "A-ND (n-D) iter/zip/fold/sum as stated in shim/means.rs", "A-NUM: generic arithmetic is deterministic; machine arithmetic of the concrete element type is not interpreted"],
-        "not_decided": ["floating-point accuracy of mean/weighted_sum/weighted_mean/harmonic_mean/geometric_mean (rounding-error analysis)", "per-axis forms and harmonic/geometric mean beyond the enumerated inputs"],
+        "not_decided": ["floating-point accuracy beyond the inputs of enum:floatsums (f64 mean / weighted_sum / weighted_mean vs the exact rational value within (n+2) u sum|terms|: bounded only); accuracy of harmonic_mean / geometric_mean (ln, exp)", "per-axis forms and harmonic/geometric mean beyond the enumerated inputs"],
         "rule": "one case per (shape, data, weights, layout pair) or (axis, axis weights); non-trivial = at least 2 elements",
     },
     "C07": {
@@ -260,9 +260,9 @@ PROPS.update({
         "technique": "Verus contracts on the extracted deviation kernels (loop over zipped pairs, fold-permutation lemma); bounded enumeration for the derived float measures",
         "design_ref": "DESIGN.md 4 (C09), 8a",
         "verus": [("deviation", "N")],
-        "enum": [{"name": "deviation"}],
+        "enum": [{"name": "deviation"}, {"name": "floatsums"}],
         "assumptions": [A_VERUS, A_EXTRACT, A_ENUM, "A-ND (n-D) incl. Zip::for_each as stated in shim/zip.rs", "A-NUM: generic Sub/Mul/AddAssign/abs/zero are deterministic and defined for all operands (arith_total)"],
-        "not_decided": ["float inputs (roundoff), big-integer element types beyond the generic statement", "l2_dist / mean_* / psnr as functions of the exact distances: bounded only"],
+        "not_decided": ["float inputs beyond enum:floatsums (f64 sq_l2_dist / l1_dist vs the exact rational value within (n+4) u sum of terms, linf_dist and the derived measures bit for bit: bounded only), big-integer element types beyond the generic statement", "l2_dist / mean_* / psnr as functions of the exact distances: bounded only"],
         "rule": "one case per (shape, contents of both operands, layout pair); non-trivial = at least 2 elements and operands differ",
     },
     "C10": {
